@@ -8,6 +8,7 @@ import (
 	"errors"
 	"fmt"
 	"os"
+	osexec "os/exec"
 	"path/filepath"
 	"regexp"
 	"sort"
@@ -80,7 +81,8 @@ type Proc struct {
 	Parent   int  `json:"parent"`
 	Ign      bool `json:"ign"`      // trap '' TERM in effect (own or inherited)
 	Detached bool `json:"detached"` // exec >/dev/null 2>&1 in effect (own or inherited)
-	Setsid   bool `json:"setsid"`   // started through setsid(1)
+	Setsid   bool `json:"setsid"`   // started through setsid(1): a session and process group of its own
+	Pgrp     bool `json:"pgrp"`     // started through setpgrp(0,0): a process group of its own inside the same session (nested group)
 	LifeMs   int  `json:"life_ms"`  // exec sleep <life>; for a waiting main: the longest life of its children
 }
 
@@ -88,7 +90,22 @@ type Scenario struct {
 	Name      string `json:"name"`
 	TimeoutMs int    `json:"timeout_ms"`
 	MainWait  bool   `json:"main_wait"` // process 0 ends with `wait` instead of `exec sleep`
-	Procs     []Proc `json:"procs"`
+	// "" = NoSandbox; "tool" = sandbox != NoSandbox through an external sandbox tool (a two-line `exec "$@"` script),
+	// namespace policy never; "builtin" = sandbox != NoSandbox through the builtin sandbox (re-exec of the running
+	// binary as `<exe> sandbox cmd...` inside new user/pid/net/mount namespaces)
+	Sandbox string `json:"sandbox"`
+	Procs   []Proc `json:"procs"`
+}
+
+// coqMode is the configuration ExecCommand runs under, as a Model.C30.mode
+func (s *Scenario) coqMode() string {
+	switch s.Sandbox {
+	case "tool":
+		return lib.App("mkMode", "NsNever", "false", "true")
+	case "builtin":
+		return lib.App("mkMode", "NsSandbox", "true", "true")
+	}
+	return lib.App("mkMode", "NsNever", "false", "false")
 }
 
 // normalise makes the flags the effective ones (a child inherits an ignored SIGTERM and redirected output; a
@@ -108,9 +125,12 @@ func (s *Scenario) normalise() {
 		p.Ign = p.Ign || par.Ign
 		p.Detached = p.Detached || par.Detached
 		if escaped[p.Parent] {
-			p.Setsid = false
+			p.Setsid, p.Pgrp = false, false
 		}
-		escaped[i] = escaped[p.Parent] || p.Setsid
+		if p.Setsid {
+			p.Pgrp = false
+		}
+		escaped[i] = escaped[p.Parent] || p.Setsid || p.Pgrp
 	}
 	if s.MainWait {
 		life := 0
@@ -143,6 +163,10 @@ func (s *Scenario) body(dir string, i int, files map[string]string) string {
 			name := fmt.Sprintf("%s/p_%d.sh", dir, j)
 			files[name] = s.body(dir, j, files)
 			fmt.Fprintf(&b, "setsid bash %s &\n", name)
+		} else if s.Procs[j].Pgrp {
+			name := fmt.Sprintf("%s/p_%d.sh", dir, j)
+			files[name] = s.body(dir, j, files)
+			fmt.Fprintf(&b, "perl -e 'setpgrp(0,0); exec @ARGV' bash %s &\n", name)
 		} else {
 			fmt.Fprintf(&b, "(\n%s) &\n", s.body(dir, j, files))
 		}
@@ -168,13 +192,13 @@ func (s *Scenario) writeScripts(dir string) {
 func (s *Scenario) coqSpecs() string {
 	items := make([]string, len(s.Procs))
 	for i, p := range s.Procs {
-		items[i] = lib.App("mkSpec", lib.Nat(p.Parent), lib.Bool(p.Ign), lib.Bool(p.Detached), lib.Bool(p.Setsid), lib.N(uint64(p.LifeMs)))
+		items[i] = lib.App("mkSpec", lib.Nat(p.Parent), lib.Bool(p.Ign), lib.Bool(p.Detached), lib.Bool(p.Setsid || p.Pgrp), lib.N(uint64(p.LifeMs)))
 	}
 	return lib.List(items)
 }
 
 func (s *Scenario) key() string {
-	return fmt.Sprint(s.TimeoutMs, s.MainWait, s.Procs)
+	return fmt.Sprint(s.TimeoutMs, s.MainWait, s.Sandbox, s.Procs)
 }
 
 // ---------------------------------------------------------------------------------------------
@@ -314,10 +338,78 @@ type Result struct {
 	InSess    []survivor `json:"survivors_in_session"`
 	OutSess   []survivor `json:"survivors_other_session"`
 	SetupLate bool       `json:"setup_late"`
-	MainPid   int        `json:"-"`
+	// the executor had not returned when the watchdog gave up (ElapsedMs is then the time the watchdog waited); the
+	// harness then killed every process of the action to get the call back
+	NotReported bool   `json:"not_reported"`
+	LostMs      int64  `json:"machine_stall_ms"` // time the canary lost while the call ran
+	Panic       string `json:"panic,omitempty"`
+	MainPid     int    `json:"-"`
 }
 
-var mySid int
+var mySid, myPgid int
+var executors = map[string]*process.Executor{}
+var userNS bool
+
+// ---- how much the machine disturbed us: a canary goroutine sleeps 5 ms at a time and records by how much each sleep
+// overshot. The executor's timers live in the same Go runtime and the same process, so the time the canary lost in a
+// window is the time the executor's timers may have lost too. ----
+type stall struct {
+	at   time.Time
+	late time.Duration
+}
+
+var stalls struct {
+	mu   sync.Mutex
+	recs []stall
+}
+
+func canary() {
+	for {
+		t := time.Now()
+		time.Sleep(5 * time.Millisecond)
+		if late := time.Since(t) - 5*time.Millisecond; late > 5*time.Millisecond {
+			stalls.mu.Lock()
+			stalls.recs = append(stalls.recs, stall{t, late})
+			stalls.mu.Unlock()
+		}
+	}
+}
+
+// lostIn is the total time the canary lost between a and b
+func lostIn(a, b time.Time) time.Duration {
+	stalls.mu.Lock()
+	defer stalls.mu.Unlock()
+	var sum time.Duration
+	for _, r := range stalls.recs {
+		if r.at.Add(r.late).After(a) && r.at.Before(b) {
+			sum += r.late
+		}
+	}
+	return sum
+}
+
+// directChild finds the process the executor started for this scenario: the one carrying the mark whose parent is
+// this process (needed inside a pid namespace, where $BASHPID is the pid as seen from inside)
+func directChild(mark string) int {
+	me := os.Getpid()
+	for _, f := range scan(mark) {
+		b, err := os.ReadFile(fmt.Sprintf("/proc/%d/stat", f.Pid))
+		if err != nil {
+			continue
+		}
+		st := string(b)
+		if k := strings.LastIndexByte(st, ')'); k >= 0 {
+			fl := strings.Fields(st[k+1:])
+			if len(fl) > 1 {
+				if ppid, _ := strconv.Atoi(fl[1]); ppid == me {
+					return f.Pid
+				}
+			}
+		}
+	}
+	return 0
+}
+
 var markSeq int64
 var markMu sync.Mutex
 
@@ -336,11 +428,83 @@ func runScenario(s *Scenario, base string) Result {
 	argv := process.BashCommand("bash", ". "+dir+"/p_0.sh", true)
 	timeout := time.Duration(s.TimeoutMs) * time.Millisecond
 
-	t0 := time.Now()
-	_, _, err := process.New().ExecWithTimeout(context.Background(), nil, dir, env, timeout, false, false, false, false, process.NoSandbox, argv)
-	t1 := time.Now()
-
+	sandbox := process.NoSandbox
+	if s.Sandbox != "" {
+		sandbox = process.NewSandboxConfig(true, true)
+	}
 	var r Result
+	type ret struct {
+		err error
+		at  time.Time
+		pan string
+	}
+	done := make(chan ret, 1)
+	t0 := time.Now()
+	go func() {
+		defer func() {
+			if p := recover(); p != nil {
+				done <- ret{nil, time.Now(), fmt.Sprint(p)}
+			}
+		}()
+		_, _, err := executors[s.Sandbox].ExecWithTimeout(context.Background(), nil, dir, env, timeout, false, false, false, false, sandbox, argv)
+		done <- ret{err, time.Now(), ""}
+	}()
+	nsPid := make(chan int, 1)
+	stopLook := make(chan struct{})
+	if s.Sandbox == "builtin" {
+		go func() {
+			for {
+				if pid := directChild(mark); pid != 0 {
+					nsPid <- pid
+					return
+				}
+				select {
+				case <-stopLook:
+					nsPid <- 0
+					return
+				case <-time.After(20 * time.Millisecond):
+				}
+			}
+		}()
+	}
+	// the watchdog: the report is due by timeout + 1030 ms; well after that the call is given up, the action's
+	// processes are killed (whoever still holds the pipes included) and the call is collected
+	var got ret
+	select {
+	case got = <-done:
+	case <-time.After(timeout + watchdogExtra):
+	}
+	// a stalled machine stalls the executor's timers: give the call as much again as the canary lost (at most 6 s more)
+	for waited := time.Duration(0); got.at.IsZero() && waited < 6*time.Second; {
+		more := lostIn(t0, time.Now()) - waited
+		if more < 50*time.Millisecond {
+			break
+		}
+		waited += more
+		select {
+		case got = <-done:
+		case <-time.After(more):
+		}
+	}
+	if got.at.IsZero() {
+		r.NotReported = true
+		giveUp := time.Now()
+		for k := 0; k < 3; k++ {
+			for _, f := range scan(mark) {
+				syscall.Kill(f.Pid, syscall.SIGKILL)
+			}
+			select {
+			case got = <-done:
+				k = 3
+			case <-time.After(3 * time.Second):
+			}
+		}
+		got.at = giveUp
+	}
+	close(stopLook)
+	err, t1 := got.err, got.at
+	r.Panic = got.pan
+	r.LostMs = lostIn(t0, t1).Milliseconds()
 	r.ElapsedMs = t1.Sub(t0).Milliseconds()
 	r.TimedOut = errors.Is(err, context.DeadlineExceeded)
 	if err != nil {
@@ -348,6 +512,9 @@ func runScenario(s *Scenario, base string) Result {
 	}
 	// survivors: poll for up to 100 ms; processes that are visibly dying (zombie, SIGKILL pending) get up to 2 s more
 	var found []survivor
+	if r.Panic != "" {
+		r.Err = "panic: " + r.Panic
+	}
 	deadline := t1.Add(100 * time.Millisecond)
 	hard := t1.Add(2 * time.Second)
 	for {
@@ -371,16 +538,19 @@ func runScenario(s *Scenario, base string) Result {
 		}
 		time.Sleep(20 * time.Millisecond)
 	}
-	for _, f := range found {
-		if f.Sid == mySid {
-			r.InSess = append(r.InSess, f)
-		} else {
-			r.OutSess = append(r.OutSess, f)
-		}
-	}
 	// main pid, readiness of every process before the first observation point
-	if b, err := os.ReadFile(filepath.Join(dir, "ready_0")); err == nil {
+	if s.Sandbox == "builtin" {
+		r.MainPid = <-nsPid
+	} else if b, err := os.ReadFile(filepath.Join(dir, "ready_0")); err == nil {
 		r.MainPid, _ = strconv.Atoi(strings.TrimSpace(string(b)))
+	}
+	for _, f := range found {
+		// escaped = in another session (setsid), or in a process group that is neither the action's nor ours (setpgrp)
+		if f.Sid != mySid || (r.MainPid != 0 && f.Pgid != r.MainPid && f.Pgid != myPgid) {
+			r.OutSess = append(r.OutSess, f)
+		} else {
+			r.InSess = append(r.InSess, f)
+		}
 	}
 	evs := logcap.events(r.MainPid)
 	for _, e := range evs {
@@ -394,6 +564,9 @@ func runScenario(s *Scenario, base string) Result {
 	if len(evs) >= 2 {
 		r.Gap1Ms = evs[1].at.Sub(evs[0].at).Milliseconds()
 		r.Gap2Ms = t1.Sub(evs[1].at).Milliseconds()
+	}
+	if r.NotReported {
+		cutoff = t1
 	}
 	for i := range s.Procs {
 		fi, err := os.Stat(filepath.Join(dir, fmt.Sprintf("ready_%d", i)))
@@ -412,8 +585,39 @@ func runScenario(s *Scenario, base string) Result {
 
 func fixedScenarios(T int) []Scenario {
 	long := 30000
-	p := func(parent int, ign, det, setsid bool, life int) Proc { return Proc{parent, ign, det, setsid, life} }
-	return []Scenario{
+	p := func(parent int, ign, det, setsid bool, life int) Proc {
+		return Proc{Parent: parent, Ign: ign, Detached: det, Setsid: setsid, LifeMs: life}
+	}
+	g := func(parent int, ign, det bool, life int) Proc { // a nested process group
+		return Proc{Parent: parent, Ign: ign, Detached: det, Pgrp: true, LifeMs: life}
+	}
+	tree := []Proc{p(0, false, false, false, 0),
+		p(0, false, false, false, long), p(0, true, false, false, long), p(1, false, false, false, long), p(1, false, true, false, long),
+		p(2, true, false, false, long), p(2, true, true, false, long), p(3, true, false, false, long), p(5, true, false, false, T)}
+	out := []Scenario{
+		// ---- sandboxed actions: ExecCommand replaces the command by the sandbox tool / the re-exec'ed binary ----
+		{Name: "tool-sleep", Sandbox: "tool", Procs: []Proc{p(0, false, false, false, long)}},
+		{Name: "tool-ignore-term-children-wait", Sandbox: "tool", MainWait: true, Procs: []Proc{p(0, true, false, false, 0), p(0, true, false, false, long), p(0, true, false, false, long)}},
+		{Name: "tool-background-child-wait", Sandbox: "tool", MainWait: true, Procs: []Proc{p(0, false, false, false, 0), p(0, false, false, false, long)}},
+		{Name: "tool-detached-child-ignores-term", Sandbox: "tool", Procs: []Proc{p(0, false, false, false, long), p(0, true, true, false, long)}},
+		{Name: "tool-setsid-child-holding-pipes", Sandbox: "tool", Procs: []Proc{p(0, false, false, false, long), p(0, false, false, true, long)}},
+		{Name: "tool-small-fork-bomb", Sandbox: "tool", MainWait: true, Procs: tree},
+		{Name: "tool-exit-at-deadline", Sandbox: "tool", Procs: []Proc{p(0, false, false, false, T)}},
+		// ---- processes that leave the group and keep (or give up) the pipes ----
+		{Name: "daemonised-grandchild-holding-pipes", Procs: []Proc{p(0, false, false, false, long), p(0, false, false, false, 0), p(1, false, false, true, long)}},
+		{Name: "daemonised-grandchild-ignores-term-holding-pipes", Procs: []Proc{p(0, true, false, false, long), p(0, true, false, false, 0), p(1, true, false, true, long)}},
+		{Name: "exit-leaving-setsid-child-holding-pipes", Procs: []Proc{p(0, false, false, false, T/3), p(0, false, false, true, long)}},
+		{Name: "nested-group-holding-pipes", Procs: []Proc{p(0, false, false, false, long), g(0, false, false, long)}},
+		{Name: "nested-group-detached-ignores-term", Procs: []Proc{p(0, false, false, false, long), g(0, true, true, long), p(1, true, true, false, long)}},
+		{Name: "nested-group-inside-waiting-main", MainWait: true, Procs: []Proc{p(0, false, false, false, 0), p(0, true, true, false, long), g(0, false, false, T/2), p(2, false, false, false, long)}},
+	}
+	if userNS {
+		out = append(out,
+			Scenario{Name: "builtin-sleep", Sandbox: "builtin", Procs: []Proc{p(0, false, false, false, long)}},
+			Scenario{Name: "builtin-ignore-term-children-wait", Sandbox: "builtin", MainWait: true, Procs: []Proc{p(0, true, false, false, 0), p(0, true, false, false, long), p(0, true, true, false, long)}},
+			Scenario{Name: "builtin-setsid-child-holding-pipes", Sandbox: "builtin", Procs: []Proc{p(0, false, false, false, long), p(0, false, false, true, long)}})
+	}
+	return append(out, []Scenario{
 		{Name: "sleep", Procs: []Proc{p(0, false, false, false, long)}},
 		{Name: "ignore-term", Procs: []Proc{p(0, true, false, false, long)}},
 		{Name: "ignore-term-children-wait", MainWait: true, Procs: []Proc{p(0, true, false, false, 0), p(0, true, false, false, long), p(0, true, false, false, long)}},
@@ -426,10 +630,8 @@ func fixedScenarios(T int) []Scenario {
 		{Name: "exit-at-deadline", Procs: []Proc{p(0, false, false, false, T)}},
 		{Name: "ignore-term-exit-just-after-deadline", Procs: []Proc{p(0, true, false, false, T+15), p(0, true, false, false, T-10)}},
 		{Name: "grandchild-ignores-term-holding-pipes", Procs: []Proc{p(0, false, false, false, long), p(0, false, false, false, 0), p(1, true, false, false, long)}},
-		{Name: "small-fork-bomb", MainWait: true, Procs: []Proc{p(0, false, false, false, 0),
-			p(0, false, false, false, long), p(0, true, false, false, long), p(1, false, false, false, long), p(1, false, true, false, long),
-			p(2, true, false, false, long), p(2, true, true, false, long), p(3, true, false, false, long), p(5, true, false, false, T)}},
-	}
+		{Name: "small-fork-bomb", MainWait: true, Procs: tree},
+	}...)
 }
 
 func randomScenario(r *lib.Rng, T int) Scenario {
@@ -440,24 +642,68 @@ func randomScenario(r *lib.Rng, T int) Scenario {
 		s.Procs = append(s.Procs, Proc{Parent: r.Intn(max(i, 1)), Ign: r.Chance(1, 3), Detached: r.Chance(1, 4) && i > 0,
 			Setsid: i > 0 && r.Chance(1, 6), LifeMs: lib.Pick(r, lives)})
 	}
+	// drawn after everything else, so that the trees of a seed are the ones they were before these were added
+	if r.Chance(1, 3) {
+		s.Sandbox = "tool"
+	}
+	for i := 1; i < n; i++ {
+		if !s.Procs[i].Setsid && r.Chance(1, 8) {
+			s.Procs[i].Pgrp = true
+		}
+	}
 	return s
 }
 
+// how long after the timeout the watchdog gives the call up: the bound, the slack of the oracle, and a second more
+const watchdogExtra = (1030 + 500 + 1000) * time.Millisecond
+
 func main() {
+	// the builtin sandbox re-executes the running binary as `<exe> sandbox <command> <args>...` inside the new
+	// namespaces; the real `plz sandbox` sets up mounts and the network and then execs the command - this one only execs
+	if len(os.Args) >= 3 && os.Args[1] == "sandbox" {
+		path, err := osexec.LookPath(os.Args[2])
+		if err != nil {
+			fmt.Fprintln(os.Stderr, "sandbox:", err)
+			os.Exit(127)
+		}
+		err = syscall.Exec(path, os.Args[2:], os.Environ())
+		fmt.Fprintln(os.Stderr, "sandbox: exec:", err)
+		os.Exit(126)
+	}
 	lib.Main("C30", func(c *lib.Ctx) {
 		c.Model("From PlzV Require Import Model.C30.", "C30.case", "C30.check")
-		c.Rule("process trees run as real bash/sleep processes through process.ExecWithTimeout: 13 fixed shapes (plain sleep, SIGTERM ignored, " +
-			"background children and grandchildren, children holding or detached from the output pipes, setsid escapes, exits at/around the deadline, a 9-process tree) " +
-			"plus random trees of 1-7 processes (parent, trap '' TERM, exec >/dev/null, setsid, life in {0, T/2, T-10, T, T+15, 30 s}, main sleeping or waiting), each with every timeout of the tier. " +
+		c.Rule("process trees run as real bash/sleep processes through process.ExecWithTimeout: 13 fixed shapes unsandboxed (plain sleep, SIGTERM ignored, " +
+			"background children and grandchildren, children holding or detached from the output pipes, setsid escapes, exits at/around the deadline, a 9-process tree), " +
+			"7 shapes run as sandboxed actions through an external sandbox tool (a two-line exec \"$@\" script; sandbox != NoSandbox), 3 through the builtin sandbox " +
+			"(re-exec of the harness binary inside new user/pid/net/mount namespaces, when user namespaces are available; oracle only), 6 shapes with daemonised (fork, setsid, parent exits) " +
+			"or setpgrp'ed (nested process group) children that keep or give up the output pipes, " +
+			"plus random trees of 1-7 processes (parent, trap '' TERM, exec >/dev/null, setsid, setpgrp, life in {0, T/2, T-10, T, T+15, 30 s}, main sleeping or waiting, one in three through the sandbox tool), each with every timeout of the tier. " +
+			"A watchdog gives a call up 2.53 s after its timeout. " +
 			"distinct = distinct (tree, timeout); non-trivial = more than one process, or SIGTERM ignored, or a life within 20 ms of the deadline")
 		logging.SetBackend(logcap)
+		go canary()
 		markPrefix = fmt.Sprintf("c30_%d_", os.Getpid())
-		_, _, mySid, _ = procStat(os.Getpid())
+		_, myPgid, mySid, _ = procStat(os.Getpid())
 		base, err := os.MkdirTemp(c.Out, "c30-")
 		if err != nil {
 			panic(err)
 		}
 		defer os.RemoveAll(base)
+		tool := filepath.Join(base, "fake_sandbox")
+		if err := os.WriteFile(tool, []byte("#!/bin/sh\nexec \"$@\"\n"), 0o755); err != nil {
+			panic(err)
+		}
+		executors[""] = process.New()
+		executors["tool"] = process.NewSandboxingExecutor(false, process.NamespaceNever, tool)
+		executors["builtin"] = process.NewSandboxingExecutor(true, process.NamespaceSandbox, "")
+		// are user namespaces available? (the builtin sandbox clones into new user/pid/net/mount namespaces)
+		probe := osexec.Command("/bin/true")
+		probe.SysProcAttr = &syscall.SysProcAttr{Cloneflags: syscall.CLONE_NEWUSER | syscall.CLONE_NEWPID | syscall.CLONE_NEWNET | syscall.CLONE_NEWNS | syscall.CLONE_NEWUTS | syscall.CLONE_NEWIPC,
+			UidMappings: []syscall.SysProcIDMap{{HostID: os.Getuid(), Size: 1, ContainerID: 0}}, GidMappings: []syscall.SysProcIDMap{{HostID: os.Getgid(), Size: 1, ContainerID: 0}}}
+		userNS = probe.Run() == nil
+		if !userNS {
+			c.Note("user namespaces are not available here: no builtin-sandbox scenarios")
+		}
 
 		var scenarios []Scenario
 		var replay Scenario
@@ -497,7 +743,10 @@ func main() {
 		const boundMs, slackMs, modelLatMs = 1030, 500, 400
 		noisy := func(s *Scenario, r Result) bool {
 			T := int64(s.TimeoutMs)
-			if r.SetupLate || r.MainPid == 0 {
+			if r.SetupLate || r.MainPid == 0 || r.NotReported {
+				return true
+			}
+			if r.LostMs > 300 {
 				return true
 			}
 			if r.TimedOut {
@@ -564,16 +813,27 @@ func main() {
 			for k, att := range attempts[i] {
 				r = att
 				last := k == len(attempts[i])-1
-				js = map[string]any{"name": s.Name, "timeout_ms": s.TimeoutMs, "main_wait": s.MainWait, "procs": s.Procs, "observed": r, "attempt": k + 1}
+				js = map[string]any{"name": s.Name, "timeout_ms": s.TimeoutMs, "main_wait": s.MainWait, "sandbox": s.Sandbox, "procs": s.Procs, "observed": r, "attempt": k + 1}
 
 				// ---- the property oracle: nothing below uses the model ----
+				c.Oracle()
+				if r.Panic != "" {
+					c.Fail("executor-panicked", fmt.Sprintf("timeout %d ms, sandbox %q: the executor panicked: %s", T, s.Sandbox, r.Panic), js)
+				}
 				if last {
 					c.Oracle()
-					if r.TimedOut && r.ElapsedMs > T+boundMs+slackMs {
-						c.Fail("timeout-reported-late", fmt.Sprintf("timeout %d ms: returned after %d ms, more than %d+%d ms after the deadline (attempt %d)", T, r.ElapsedMs, boundMs, slackMs, k+1), js)
+					if r.NotReported {
+						c.Fail("timeout-not-reported", fmt.Sprintf("timeout %d ms: the action had not been reported finished %d ms after its start (deadline + %d ms); "+
+							"the call only came back after the harness killed the action's remaining processes (attempt %d)", T, r.ElapsedMs, r.ElapsedMs-T, k+1), js)
+					}
+				}
+				if last && !r.NotReported {
+					c.Oracle()
+					if r.TimedOut && r.ElapsedMs > T+boundMs+slackMs+r.LostMs {
+						c.Fail("timeout-reported-late", fmt.Sprintf("timeout %d ms: returned after %d ms, more than %d+%d ms after the deadline (+%d ms the machine stalled) (attempt %d)", T, r.ElapsedMs, boundMs, slackMs, r.LostMs, k+1), js)
 					}
 					c.Oracle()
-					if !r.TimedOut && r.ElapsedMs > T+slackMs {
+					if !r.TimedOut && r.ElapsedMs > T+slackMs+r.LostMs {
 						c.Fail("exceeded-timeout-not-reported-failed", fmt.Sprintf("timeout %d ms: returned after %d ms with error %q instead of a timeout (attempt %d)", T, r.ElapsedMs, r.Err, k+1), js)
 					}
 				}
@@ -618,7 +878,13 @@ func main() {
 			c.Hist("timeout_ms", strconv.Itoa(s.TimeoutMs))
 			c.HistN("processes", len(s.Procs))
 			c.HistN("attempts", len(attempts[i]))
+			c.Hist("sandbox", map[string]string{"": "none", "tool": "external tool", "builtin": "builtin (namespaces)"}[s.Sandbox])
 			switch {
+			case r.NotReported:
+				c.Hist("outcome", "not reported before the watchdog gave up")
+				c.Hist("model case", "none: not reported")
+				c.Eval(js, s.key(), nontrivial)
+				continue
 			case r.Err != "" && !r.TimedOut:
 				c.Hist("outcome", "other-error")
 				c.Note("scenario %s/%d returned an unexpected error %q; no model case", s.Name, s.TimeoutMs, r.Err)
@@ -642,17 +908,24 @@ func main() {
 				c.Eval(js, s.key(), nontrivial)
 				continue
 			}
+			if s.Sandbox == "builtin" {
+				// inside a pid namespace the kernel ends every process when the first one dies, and drops a SIGTERM sent
+				// to it unless it has a handler: not in the model; the oracle above applied
+				c.Hist("model case", "none: pid namespace")
+				c.Eval(js, s.key(), nontrivial)
+				continue
+			}
 			c.Hist("model case", "yes")
 			sigs := make([]uint64, len(r.Sigs))
 			for k, sg := range r.Sigs {
 				sigs[k] = uint64(sg)
 			}
-			c.Case(lib.App("Case", s.coqSpecs(), lib.N(uint64(s.TimeoutMs)), lib.Bool(r.TimedOut), lib.NList(sigs),
+			c.Case(lib.App("Case", s.coqMode(), s.coqSpecs(), lib.N(uint64(s.TimeoutMs)), lib.Bool(r.TimedOut), lib.NList(sigs),
 				lib.N(uint64(r.TTermMs)), lib.N(uint64(r.Gap1Ms)), lib.N(uint64(r.Gap2Ms)), lib.N(uint64(r.ElapsedMs)), lib.N(uint64(r.ScanMs)),
 				lib.N(uint64(len(r.InSess))), lib.N(uint64(len(r.OutSess)))), js, s.key(), nontrivial)
 		}
 		if escapedSurvivors > 0 {
-			c.Note("%d processes that had left the process group through setsid survived their action; the property speaks of the processes in the group, so this is not counted as a violation", escapedSurvivors)
+			c.Note("%d processes that had left the process group through setsid or setpgrp survived their action; the property speaks of the processes in the group, so this is not counted as a violation", escapedSurvivors)
 		}
 		if quirk > 0 {
 			c.Note("%d timed-out commands exited on SIGTERM within 30 ms and the executor still waited the full second of the SIGKILL wait (the second sendSignal waits on a channel the first one drained): within the bound, not a violation", quirk)
